@@ -378,12 +378,74 @@ Definition c04_never_failed (c : cfg) (ns0 : list node) (rs : list req) (its : l
                                     | None => true end
                     | _ => true end) (concat (map (fun p => sn_events (fst p)) its)).
 
+(* "when a release lets only one of two waiting tasks run, the one with the
+   higher priority is started": walk the events of one iteration in order,
+   [m] = the node map before the next grant (previous snapshot + the grants so
+   far); when a task L that was waiting before the iteration is started while
+   a plain task H of higher priority, also waiting before, still waits after
+   the iteration, then H must not have fitted [m] (judged for every start
+   offset of the node search and with every node tagged before or after the
+   iteration treated as tagged -- only an H that fits in any case counts).
+   [skipped]: uids which ru.lazy_bisect left unchecked in this iteration; the
+   clause is evaluated separately for such H (sel = true) and for all others *)
+Definition fits_any_offset (c : cfg) (m : list node) (tg : list Z) (t : req) : bool :=
+  forallb (fun off =>
+    match schedule_task c (mkS m off [] tg [] 0 [] [] true []) t with
+    | inr (_, _, _, Some _) => true
+    | _ => false end) (seq 0 (length m)).
+
+Fixpoint c04_prio_events (c : cfg) (rs : list req) (pp : list (Z * Z)) (still tg skipped : list Z) (sel : bool)
+  (m : list node) (evs : list event) : bool :=
+  match evs with
+  | [] => true
+  | Started u sl :: r =>
+      let ok := match zlookup u pp with
+                | None => true
+                | Some pl =>
+                    forallb (fun hp =>
+                      if (pl <? snd hp) && zmem (fst hp) still && Bool.eqb (zmem (fst hp) skipped) sel then
+                        match find_req (fst hp) rs with
+                        | Some t => negb (plain t && fits_any_offset c m tg t)
+                        | None => true end
+                      else true) pp
+                end in
+      ok && c04_prio_events c rs pp still tg skipped sel (change_slot_states true sl m) r
+  | _ :: r => c04_prio_events c rs pp still tg skipped sel m r
+  end.
+
+(* the priority is the one the task was submitted with (r_prio), not the key
+   of the pool it happens to be filed in *)
+Definition pool_prios (rs : list req) (wp : list (Z * list Z)) : list (Z * Z) :=
+  concat (map (fun pl => map (fun u => (u, match find_req u rs with Some t => r_prio t | None => fst pl end)) (snd pl)) wp).
+
+Definition skipped_of (strat : list (list (Z * bool))) : list Z :=
+  map fst (filter (fun ub => negb (snd ub)) (concat strat)).
+
+Fixpoint strategies (ops : list op) : list (list (list (Z * bool))) :=
+  match ops with
+  | [] => []
+  | Iterate st :: r => st :: strategies r
+  | _ :: r => strategies r
+  end.
+
+Fixpoint c04_priority (c : cfg) (rs : list req) (sel : bool) (m : list node) (tg : list Z) (prev_pool : list (Z * list Z))
+  (sts : list (list (list (Z * bool)))) (its : list (snap * list Z)) : bool :=
+  match its with
+  | [] => true
+  | (sn, _) :: r =>
+      c04_prio_events c rs (pool_prios rs prev_pool) (concat (map snd (sn_pool sn))) (tg ++ sn_tagged sn)
+                      (skipped_of (hd [] sts)) sel m (sn_events sn)
+      && c04_priority c rs sel (sn_nodes sn) (sn_tagged sn) (sn_pool sn) (tl sts) r
+  end.
+
 Definition c04_bits (c : cfg) (ns0 : list node) (ops : list op) (its : list (snap * list Z)) : list bool :=
   let '(once, part) := c04_walk ops its 1 [] in
   let a := app_offended ns0 ops its in
   [ once; part;
     c04_progress c ns0 (all_reqs ops) [] [] its || a;
-    c04_never_failed c ns0 (all_reqs ops) its || a ].
+    c04_never_failed c ns0 (all_reqs ops) its || a;
+    c04_priority c (all_reqs ops) false ns0 [] [] (strategies ops) its || a;
+    c04_priority c (all_reqs ops) true ns0 [] [] (strategies ops) its || a ].
 
 Definition c02_row (c : cfg) (ns0 : list node) (ops : list op) (its : list (snap * list Z)) : list bool :=
   corr_bit c ns0 ops its :: c02_bits c ns0 ops its.
